@@ -109,6 +109,13 @@ def cases(ctx):
     for use in ("rot", "array-init", "loop"):
         for outcome in (0, 1):
             sdk.append({"kind": "sdk-resolved-future", "use": use, "outcome": outcome, "expect": "in"})
+    # an integer-like object whose value lives in __int__ / the comparison operators while its raw int is 0 (what a resolved
+    # Future of the SDK is) at the sites that are not command fields: register index, array address, entry and slice parts,
+    # application id, version bytes
+    for site in ("reg", "addr", "entry", "slice", "app", "version"):
+        for v in (1, 5, 15, 16, 255, 300, 70000):
+            sdk.append({"kind": "carrier", "site": site, "value": v,
+                        "expect": "in" if v < {"reg": 16, "entry": 16, "slice": 16, "version": 256, "app": 65536}.get(site, 2**31) else "out"})
     for c in sdk:
         k += 1
         if ctx.mine(k):
@@ -407,6 +414,67 @@ def run_case(ctx, case):
             q = Qubit(conn)
             getattr(q, "rot_" + case["axis"])(n=_typed(case["n"], case.get("vtype")), d=_typed(case["d"], case.get("vtype")))
         sdk(prog, lambda descr, subs: any(d[0] == mn and d[1][1:] == [case["n"], case["d"]] for d in descr))
+    elif kind == "carrier":
+        from netqasm.lang import operand as op_
+        from netqasm.lang.encoding import RegisterName
+        from netqasm.lang.instr import core as core_
+        from netqasm.lang.parsing import deserialize
+        from netqasm.lang.subroutine import Subroutine
+        from netqasm.sdk.futures import BaseFuture
+
+        class Carrier(int):
+            """An int subclass in the way of the SDK's BaseFuture: raw value 0, the value it stands for in __int__ and comparisons."""
+            def __new__(cls, v):
+                o = int.__new__(cls, 0)
+                o.v = v
+                return o
+            __int__ = __index__ = lambda self: self.v
+            __lt__ = lambda self, o: self.v < int(o)
+            __le__ = lambda self, o: self.v <= int(o)
+            __gt__ = lambda self, o: self.v > int(o)
+            __ge__ = lambda self, o: self.v >= int(o)
+            __eq__ = lambda self, o: self.v == o
+            __hash__ = lambda self: hash(self.v)
+            __str__ = __repr__ = lambda self: str(self.v)
+        ctx.count("carrier_operands")
+        v = case["value"]
+        site = case["site"]
+
+        def build(x):
+            R = lambda i: op_.Register(RegisterName.R, i)
+            app, ver = 3, (1, 2)
+            if site == "reg":
+                ins = core_.RetRegInstruction(reg=R(x))
+            elif site == "addr":
+                ins = core_.RetArrInstruction(address=op_.Address(x))
+            elif site == "entry":
+                ins = core_.StoreInstruction(reg=R(1), entry=op_.ArrayEntry(op_.Address(2), R(x)))
+            elif site == "slice":
+                ins = core_.WaitAllInstruction(slice=op_.ArraySlice(op_.Address(2), R(1), R(x)))
+            else:
+                ins = core_.RetRegInstruction(reg=R(1))
+                if site == "app":
+                    app = x
+                else:
+                    ver = (1, x)
+            return bytes(Subroutine(instructions=[ins], netqasm_version=ver, app_id=app))
+        try:
+            raw = build(Carrier(v))
+        except Exception:
+            ctx.count("out_of_range_rejected" if case["expect"] == "out" else "typed_in_range_rejected_loudly")
+            return ctx.case(case, True)
+        try:
+            twin = build(v)
+        except Exception:
+            twin = None
+        if twin is None or raw != twin:
+            dec = deserialize(raw)
+            ctx.fail(case, f"silently altered: an integer-like object standing for {v} (raw int 0, value in __int__: what a resolved Future is) "
+                           f"as {site} was encoded without error as {[str(i) for i in dec.instructions]} app {dec.app_id} "
+                           f"version {tuple(dec.netqasm_version)}" + ("" if twin is not None else f"; the plain int {v} is refused there"))
+        else:
+            ctx.count("in_range_twins_ok")
+        return ctx.case(case, True)
     elif kind == "sdk-resolved-future":
         # a measurement outcome that the host already knows (the handle is an int whose value lives in __int__) used as an operand
         # of the next subroutine: what is encoded must be that value
